@@ -24,7 +24,7 @@ SPEC = {
         "modelled, not verified: Model/Sched.lean transcribes state.go:1140-1224, build_target.go:839-845,1217-1233, plz.go:28-130, build_step.go:62-88",
         "idealisations: atomics and channel close are atomic; real interleavings are sampled, not enumerated; the two-CAS sequence to Active is one step",
     ],
-    "assumptions": ["generated repositories use only genrule with srcs edges in up to three packages; each case starts from an empty plz-out and cache"],
+    "assumptions": ["generated repositories use only genrule (srcs edges, require/provide with one-to-many provides, post_build add_dep) in up to three packages; each case starts from an empty plz-out and cache"],
     "harness_timeout": 6000,
 }
 
@@ -39,5 +39,10 @@ H harmless: dep->declared, err->qerr, an added log.Debug line in queueTargetAsyn
      9/9 obligations, 55 cases, no oracle failure (892 s).  A first attempt at load average >200 had shown two
      environment-induced real-run failures (a 120 s timeout, a plz error); since then environment-sensitive failures are
      confirmed by an isolated re-run before they are reported (harness/cmd/c04 confirm()).
+S2 seeded by the coordinator: queueTargetAsync leaves its loop when `!called || len(deps) >= len(DeclaredDependencies())`
+     (wrong under require/provide + a post-build add_dep) -> red with a concrete replay: C04_facts_ok broken AND
+     started-before-dependency-finished on the real binary (9-11 oracle failures per quick run: corpus cases and the
+     generated `provides-late` shape, e.g. trace ... prov=2:0.1 req=4 late=0:4.3 sleep=0,0,0,800,0 ev=S0,E0,S1,E1,S3,S4,E4,E3 rc=0);
+     the Lean acceptor rejects the same trace (start of 4 not enabled before the end of the late dependency 3)
 See checks/C05.py for the failure-path mutations of the same functions.
 """
